@@ -29,6 +29,7 @@ Proof. intros H. rewrite (nth_indep _ None (Some 0%N)) by now rewrite map_length
 Ltac brk :=
   repeat match goal with
   | |- context[if ?b then _ else _] => let E := fresh "E" in destruct b eqn:E
+  | H : context[if ?b then _ else _] |- _ => let E := fresh "E" in destruct b eqn:E
   end.
 
 Ltac bools :=
@@ -190,14 +191,11 @@ Proof.
     rewrite C2 in P2. cbn [fst] in P2. rewrite skipn_length, map_length in P2.
     split; [lia|]. split; [brk; bools; lia|].
     intros j Hj. rewrite P2. cbn [Nat.leb andb]. rewrite P1. unfold dist.
-    brk; bools; try (exfalso; lia).
-    + rewrite nth_skipn_add. rewrite nth_map_some by lia. do 2 f_equal. lia.
-    + rewrite nth_map_some by lia. do 2 f_equal.
-    + reflexivity.
+    brk; bools; try (exfalso; lia); rewrite ?nth_skipn_add; rewrite ?nth_map_some by lia;
+      try reflexivity; do 2 f_equal; lia.
   - apply Nat.ltb_ge in E. split; [lia|]. split; [brk; bools; lia|].
-    intros j Hj. rewrite P1. unfold dist. brk; bools; try (exfalso; lia).
-    + rewrite nth_map_some by lia. reflexivity.
-    + reflexivity.
+    intros j Hj. rewrite P1. unfold dist.
+    brk; bools; try (exfalso; lia); rewrite ?nth_map_some by lia; try reflexivity; do 2 f_equal; lia.
 Qed.
 
 (** The two-copy read returns the first [k] cells from the read index and
@@ -241,4 +239,215 @@ Proof.
     + intros t Ht. rewrite nth_firstn_lt by lia. rewrite nth_skipn_add. unfold pos.
       brk; bools; try (exfalso; lia). reflexivity.
     + intros j Hj. rewrite P1. unfold dist. brk; bools; try (exfalso; lia); try reflexivity.
+Qed.
+
+(** ------------------------------------------------------------------
+    Invariant, abstraction. *)
+Lemma somes_map_some (l : list entry) : somes (map Some l) = l.
+Proof. induction l as [|x l IH]; [reflexivity|]. cbn. unfold somes in IH. now rewrite IH. Qed.
+
+Lemma inv_rep r :
+  Inv r -> exists qs, Rep (ents r) (ri r) (readable r) qs /\ abs r = qs /\
+                      rot r = map Some qs ++ repeat None (writable r).
+Proof.
+  intros (Hw & Hr & Hs & _ & qs & E). exists qs.
+  assert (R : Rep (ents r) (ri r) (readable r) qs).
+  { eapply rep_of_rot; eauto. }
+  split; [exact R|]. split; [|exact E].
+  unfold abs. rewrite E. destruct R as [L _].
+  rewrite firstn_app, map_length, L, Nat.sub_diag, firstn_O, app_nil_r.
+  rewrite firstn_all2 by (rewrite map_length; lia). apply somes_map_some.
+Qed.
+
+Lemma inv_of_rep r qs :
+  wi r <= cap r -> ri r <= cap r -> readable r + writable r = cap r ->
+  (wi r = ri r + readable r \/ wi r + cap r = ri r + readable r \/
+   wi r + cap r + cap r = ri r + readable r) ->
+  Rep (ents r) (ri r) (readable r) qs -> Inv r.
+Proof.
+  intros Hw Hr Hs Hj R. repeat (split; [assumption|]). exists qs.
+  unfold rot. eapply rot_of_rep; eauto.
+Qed.
+
+Lemma inv_new_empty c : Inv (new_empty c).
+Proof.
+  apply (inv_of_rep _ []); unfold cap; cbn [new_empty ents wi ri readable writable];
+    rewrite ?repeat_length; try lia.
+  split; [reflexivity|]. intros k Hk. cbn. apply nth_repeat_none.
+Qed.
+
+Lemma inv_new_full es : Inv (new_full es).
+Proof.
+  apply (inv_of_rep _ es); unfold cap; cbn [new_full ents wi ri readable writable];
+    rewrite ?map_length; try lia.
+  split; [reflexivity|]. intros k Hk. unfold pos. cbn [Nat.add].
+  rewrite map_length in *. brk; bools; try (exfalso; lia). apply nth_map_some. lia.
+Qed.
+
+Lemma inv_new c init : Inv (new c init).
+Proof. destruct init; [apply inv_new_full | apply inv_new_empty]. Qed.
+
+Lemma abs_new c init : abs (new c init) = init_queue init /\ cap (new c init) = init_cap c init.
+Proof.
+  destruct init as [es|]; unfold abs, rot, cap; cbn.
+  - rewrite app_nil_r, firstn_all2 by (rewrite map_length; lia).
+    rewrite map_length. split; [apply somes_map_some | reflexivity].
+  - rewrite repeat_length. split; reflexivity.
+Qed.
+
+(** ------------------------------------------------------------------
+    Refinement: one critical section = one step of the bounded FIFO. *)
+Lemma write_refines r es :
+  Inv r -> closed r = false ->
+  let n := Nat.min (writable r) (length es) in
+  let '(l, w) := write_raw (ents r) (wi r) (firstn n es) in
+  let r' := set_ring r l w (ri r) (writable r - n) (readable r + n) in
+  Inv r' /\ cap r' = cap r /\ abs r' = abs r ++ firstn n es.
+Proof.
+  intros HI Hc n.
+  destruct (inv_rep r HI) as (qs & R & A & _).
+  destruct HI as (Hw & Hr & Hs & Hj & _). unfold cap in *.
+  assert (Ln : length (firstn n es) = n) by (rewrite firstn_length; lia).
+  assert (W := write_raw_spec (ents r) (wi r) (firstn n es) Hw).
+  destruct (write_raw (ents r) (wi r) (firstn n es)) as [l w].
+  rewrite Ln in W. destruct W as (L & Ew & P); [lia|].
+  set (r' := set_ring r l w (ri r) (writable r - n) (readable r + n)).
+  destruct R as [Lq R].
+  assert (R' : Rep (ents r') (ri r') (readable r') (qs ++ firstn n es)).
+  { cbn [r' set_ring ents ri readable]. split.
+    - rewrite app_length. lia.
+    - intros k Hk. rewrite L in *. rewrite P by (unfold pos; brk; bools; lia).
+      rewrite R by exact Hk. unfold dist, pos.
+      brk; bools; try (exfalso; lia);
+        rewrite ?app_nth1 by lia; rewrite ?app_nth2 by lia; try reflexivity; do 2 f_equal; lia. }
+  assert (I' : Inv r').
+  { apply (inv_of_rep _ _) with (5 := R'); unfold cap; cbn [r' set_ring ents wi ri readable writable];
+      rewrite ?L; brk; bools; lia. }
+  split; [exact I'|]. split; [unfold cap; cbn; exact L|].
+  destruct (inv_rep r' I') as (qs' & R2 & A2 & _).
+  rewrite A2, A. destruct R' as [_ R']. destruct R2 as [L2 R2].
+  cbn [r' set_ring ents ri readable] in *.
+  apply (nth_ext _ _ 0%N 0%N).
+  - rewrite L2, app_length. lia.
+  - intros k Hk. assert (Hk' : k < length l) by lia.
+    specialize (R' k Hk'). rewrite (R2 k Hk') in R'.
+    destruct (k <? readable r + n) eqn:E; bools; [|lia]. now inversion R'.
+Qed.
+
+Lemma nth_ext_some (a b : list entry) :
+  length a = length b -> (forall k, k < length a -> Some (nth k a 0%N) = Some (nth k b 0%N)) -> a = b.
+Proof.
+  intros L H. apply (nth_ext _ _ 0%N 0%N); [exact L|]. intros k Hk. specialize (H k Hk). now inversion H.
+Qed.
+
+Lemma read_refines r n :
+  Inv r -> n <= readable r ->
+  let '(l, i, got) := read_raw (ents r) (ri r) n in
+  let r' := set_ring r l (wi r) i (writable r + n) (readable r - n) in
+  Inv r' /\ cap r' = cap r /\ abs r' = skipn n (abs r) /\ got = map Some (firstn n (abs r)).
+Proof.
+  intros HI Hn.
+  destruct (inv_rep r HI) as (qs & R & A & _).
+  destruct HI as (Hw & Hr & Hs & Hj & _). unfold cap in *.
+  assert (W := read_raw_spec (ents r) (ri r) n Hr).
+  destruct (read_raw (ents r) (ri r) n) as [[l i] got].
+  destruct W as (L & Ei & Lg & G & P); [lia|].
+  set (r' := set_ring r l (wi r) i (writable r + n) (readable r - n)).
+  destruct R as [Lq R].
+  assert (R' : Rep (ents r') (ri r') (readable r') (skipn n qs)).
+  { cbn [r' set_ring ents ri readable]. split.
+    - rewrite skipn_length. lia.
+    - intros k Hk. rewrite L in *. rewrite P by (unfold pos; brk; bools; lia).
+      rewrite (rep_cell (ents r) (ri r) (readable r) qs) by
+        (try split; try assumption; unfold pos; brk; bools; lia).
+      rewrite nth_skipn_add. unfold dist, pos.
+      brk; bools; try (exfalso; lia); try reflexivity; do 2 f_equal; lia. }
+  assert (I' : Inv r').
+  { apply (inv_of_rep _ _) with (5 := R'); unfold cap; cbn [r' set_ring ents wi ri readable writable];
+      rewrite ?L; brk; bools; lia. }
+  split; [exact I'|]. split; [unfold cap; cbn; exact L|].
+  destruct (inv_rep r' I') as (qs' & R2 & A2 & _).
+  rewrite A2, A. destruct R' as [L' R']. destruct R2 as [L2 R2].
+  cbn [r' set_ring ents ri readable] in *. split.
+  - apply nth_ext_some; [lia|]. intros k Hk. assert (Hk' : k < length l) by lia.
+    specialize (R' k Hk'). rewrite (R2 k Hk') in R'.
+    destruct (k <? readable r - n) eqn:E; bools; [|lia]. exact R'.
+  - apply (nth_ext _ _ None None).
+    + rewrite map_length, firstn_length. lia.
+    + intros t Ht. rewrite Lg in Ht. rewrite G by exact Ht. rewrite R by lia.
+      rewrite nth_map_some by (rewrite firstn_length; lia). rewrite nth_firstn_lt by exact Ht.
+      destruct (t <? readable r) eqn:E; bools; [reflexivity|lia].
+Qed.
+
+Lemma abs_length r : Inv r -> length (abs r) = readable r.
+Proof. intros HI. destruct (inv_rep r HI) as (qs & [L _] & A & _). now rewrite A. Qed.
+
+Theorem step_refines r o :
+  Inv r ->
+  let '(r', x, _) := seq_full r o in
+  Inv r' /\ cap r' = cap r /\ spec_step (cap r) (abs_fifo r) o = (abs_fifo r', x).
+Proof.
+  intros HI. assert (LA := abs_length r HI).
+  assert (HS : readable r + writable r = cap r) by (destruct HI as (_ & _ & H & _); exact H).
+  destruct o as [es block | k block |].
+  - (* Write *)
+    cbn [seq_full spec_step abs_fifo q cl]. rewrite LA.
+    replace (cap r <=? readable r) with (writable r =? 0)
+      by (destruct (writable r =? 0) eqn:E1, (cap r <=? readable r) eqn:E2; bools; lia).
+    destruct ((0 <? length es) && (writable r =? 0) && negb (closed r)) eqn:E.
+    + destruct block; (split; [exact HI|]; split; reflexivity).
+    + destruct (closed r) eqn:Ec.
+      * split; [exact HI|]. split; [reflexivity|]. unfold abs_fifo. now rewrite Ec.
+      * assert (W := write_refines r es HI Ec). cbv zeta in W.
+        replace (cap r - readable r) with (writable r) by lia.
+        destruct (write_raw (ents r) (wi r) (firstn (Nat.min (writable r) (length es)) es)) as [l w].
+        destruct W as (I' & C' & A'). split; [exact I'|]. split; [exact C'|].
+        unfold abs_fifo. rewrite A'. cbn [set_ring closed]. now rewrite Ec.
+  - (* Read *)
+    cbn [seq_full spec_step abs_fifo q cl]. rewrite LA.
+    destruct ((0 <? k) && (readable r =? 0) && negb (closed r)) eqn:E.
+    + destruct block; (split; [exact HI|]; split; reflexivity).
+    + destruct (closed r && (readable r =? 0)) eqn:E2.
+      * split; [exact HI|]. split; reflexivity.
+      * assert (W := read_refines r (Nat.min (readable r) k) HI (Nat.le_min_l _ _)).
+        destruct (read_raw (ents r) (ri r) (Nat.min (readable r) k)) as [[l i] got].
+        destruct W as (I' & C' & A' & G). split; [exact I'|]. split; [exact C'|].
+        unfold abs_fifo. rewrite A', G. reflexivity.
+  - (* Close *)
+    cbn [seq_full spec_step abs_fifo q cl].
+    split; [|split; reflexivity].
+    destruct HI as (H1 & H2 & H3 & H4 & H5). repeat split; assumption.
+Qed.
+
+(** transferred counts *)
+Theorem step_bounds r o r' k got bc :
+  Inv r -> seq_full r o = (r', Ret k got, bc) ->
+  (k <= Z.of_nat (cap r))%Z /\
+  match o with
+  | Write es _ => (k <= Z.of_nat (length es))%Z /\ (k <= Z.of_nat (writable r))%Z /\ got = [] /\
+                  ((0 <= k)%Z -> readable r' = readable r + Z.to_nat k /\
+                                 writable r' = writable r - Z.to_nat k)
+  | Read n _ => (k <= Z.of_nat n)%Z /\ (k <= Z.of_nat (readable r))%Z /\
+                ((0 <= k)%Z -> Z.of_nat (length got) = k /\
+                               readable r' = readable r - Z.to_nat k /\
+                               writable r' = writable r + Z.to_nat k)
+  | Close => k = 0%Z /\ got = []
+  end.
+Proof.
+  intros HI E.
+  assert (HS : readable r + writable r = cap r) by (destruct HI as (_ & _ & H & _); exact H).
+  destruct o as [es block | n block |]; cbn [seq_full] in E.
+  - destruct ((0 <? length es) && (writable r =? 0) && negb (closed r)).
+    + destruct block; inversion E; subst; repeat split; intros; try reflexivity; lia.
+    + destruct (closed r); [inversion E; subst; repeat split; intros; try reflexivity; lia|].
+      destruct (write_raw _ _ _) as [l w]. inversion E; subst. cbn [set_ring readable writable].
+      repeat split; intros; try reflexivity; lia.
+  - destruct ((0 <? n) && (readable r =? 0) && negb (closed r)).
+    + destruct block; inversion E; subst; repeat split; intros; try reflexivity; lia.
+    + destruct (closed r && (readable r =? 0)); [inversion E; subst; repeat split; intros; try reflexivity; lia|].
+      assert (W := read_refines r (Nat.min (readable r) n) HI (Nat.le_min_l _ _)).
+      destruct (read_raw _ _ _) as [[l i] g]. inversion E; subst. cbn [set_ring readable writable].
+      destruct W as (_ & _ & _ & G). rewrite G, map_length, firstn_length, abs_length by exact HI.
+      repeat split; intros; try reflexivity; lia.
+  - inversion E; subst. split; [lia|]. split; reflexivity.
 Qed.
